@@ -74,25 +74,96 @@ Proof.
     + cbn [s_len]. rewrite app_length, contents_length. cbn. lia.
 Qed.
 
+(* a heap is well formed when it has the array 0 and that array is empty (capacity 0: never written) *)
+Definition hwf (h : heap) : Prop := 0 < length h /\ arr h 0 = [].
+
+(* SEPARATION: the slice s0 (a stored record) shares its backing array with the slice s (the journal) only if
+   that array is the empty array 0 *)
+Definition sep (s0 s : slice) : Prop := s_arr s0 = s_arr s -> s_arr s0 = 0.
+
+Lemma contents_arr_ext h h' s : arr h' (s_arr s) = arr h (s_arr s) -> contents h' s = contents h s.
+Proof. intros H. unfold contents, read. rewrite H. reflexivity. Qed.
+
+(* append(s, e) does not change what any separated slice s0 holds: the in-place write goes to an array that is
+   not s0's (it is not array 0, whose capacity is 0), the other case allocates *)
+Lemma sl_append_frame g h s e s0 :
+  hwf h -> s_arr s < length h -> s_arr s0 < length h -> sep s0 s ->
+  contents (fst (sl_append g h s e)) s0 = contents h s0
+  /\ hwf (fst (sl_append g h s e))
+  /\ s_arr s0 < length (fst (sl_append g h s e))
+  /\ sep s0 (snd (sl_append g h s e)).
+Proof.
+  intros [Hlen H0] Hwf Hwf0 Hsep. unfold sl_append.
+  destruct (Nat.ltb_spec (s_len s) (capacity h s)) as [Hlt|Hge]; cbn [fst snd].
+  - unfold capacity in Hlt.
+    assert (Hne0 : s_arr s <> 0).
+    { intros E. rewrite E, H0 in Hlt. cbn in Hlt. lia. }
+    assert (Hne : s_arr s <> s_arr s0).
+    { intros E. unfold sep in Hsep. symmetry in E. specialize (Hsep E). congruence. }
+    split; [|split; [|split]].
+    + apply contents_arr_ext. unfold arr. apply nth_upd_other. exact Hne.
+    + split; [rewrite upd_length; exact Hlen|]. unfold arr. rewrite nth_upd_other by exact Hne0. exact H0.
+    + rewrite upd_length. exact Hwf0.
+    + unfold sep. cbn [s_arr]. exact Hsep.
+  - split; [|split; [|split]].
+    + apply contents_old. exact Hwf0.
+    + split; [rewrite app_length; cbn; lia|]. unfold arr. rewrite app_nth1 by exact Hlen. exact H0.
+    + rewrite app_length. cbn. lia.
+    + unfold sep. cbn [s_arr]. lia.
+Qed.
+
+Lemma sl_append_hwf g h s e :
+  hwf h -> s_arr s < length h -> hwf (fst (sl_append g h s e)).
+Proof.
+  intros Hh Hwf.
+  apply (sl_append_frame g h s e {| s_arr := 0; s_len := 0 |} Hh Hwf); [destruct Hh; exact H|].
+  unfold sep. cbn. auto.
+Qed.
+
 Lemma sl_copy_spec g h s :
-  0 < length h ->
+  hwf h ->
   contents (fst (sl_copy g h s)) (snd (sl_copy g h s)) = contents h s
   /\ s_arr (snd (sl_copy g h s)) < length (fst (sl_copy g h s))
   /\ (forall s0, s_arr s0 < length h -> contents (fst (sl_copy g h s)) s0 = contents h s0)
-  /\ s_len (snd (sl_copy g h s)) = s_len s.
+  /\ s_len (snd (sl_copy g h s)) = s_len s
+  /\ hwf (fst (sl_copy g h s))
+  /\ length h <= length (fst (sl_copy g h s))
+  /\ (forall s0, s_arr s0 < length h -> sep s0 (snd (sl_copy g h s)) /\ sep (snd (sl_copy g h s)) s0).
 Proof.
-  intros Hne. unfold sl_copy.
+  intros [Hne H0]. unfold sl_copy.
   pose proof (contents_length h s) as Hlen.
   destruct (contents h s) as [|x l] eqn:E; cbn [fst snd].
-  - repeat split; auto.
-  - split; [|split; [|split]].
+  - repeat split; auto; unfold sep; cbn; auto.
+  - split; [|split; [|split; [|split; [|split; [|split]]]]].
     + apply contents_new.
     + cbn [s_arr]. rewrite app_length. cbn. lia.
-    + intros s0 H0. apply contents_old. exact H0.
+    + intros s0 H1. apply contents_old. exact H1.
     + cbn [s_len]. exact Hlen.
+    + split; [rewrite app_length; cbn; lia|]. unfold arr. rewrite app_nth1 by exact Hne. exact H0.
+    + rewrite app_length. lia.
+    + intros s0 H1. unfold sep. cbn [s_arr]. split; lia.
 Qed.
 
 (* ------------------------------------------------------------------ the refinement invariant *)
+
+(* the abstract state is well formed: a stored record is never the empty record, and while one is stored the
+   journal is not empty (every launch makes the journal continue from the stored record) *)
+Definition awf (a : ajr) : Prop :=
+  forall r, a_stored a = Some r -> r <> (None, []) /\ a_saved a <> None.
+
+(* the stored record, read through the heap, is the abstract one; its slice is valid *)
+Definition sto_rel (c : ctx) (a : ajr) : Prop :=
+  match storage c with
+  | None => a_stored a = None
+  | Some (sn, s) => a_stored a = Some (sn, contents (hp c) s) /\ s_arr s < length (hp c)
+  end.
+
+(* ... and separated from the journal's slice, so that appending to the journal cannot change it *)
+Definition sto_sep (c : ctx) : Prop :=
+  match storage c with
+  | None => True
+  | Some (_, s) => sep s (j_events (jr c))
+  end.
 
 Record Inv (c : ctx) (a : ajr) : Prop := {
   inv_rec : recovering c = false;
@@ -101,7 +172,10 @@ Record Inv (c : ctx) (a : ajr) : Prop := {
   inv_tail : contents (hp c) (j_events (jr c)) = a_tail a;
   inv_actor : actor c = a_state a;
   inv_wf : s_arr (j_events (jr c)) < length (hp c);
-  inv_sto : storage c = None \/ a_saved a <> None
+  inv_heap : hwf (hp c);
+  inv_sto : sto_rel c a;
+  inv_sep : sto_sep c;
+  inv_awf : awf a
 }.
 
 Lemma a_saved_some a : (a_snap a <> None \/ a_tail a <> []) -> a_saved a = Some (a_snap a, a_tail a).
@@ -112,11 +186,25 @@ Qed.
 Lemma a_saved_none a : a_snap a = None -> a_tail a = [] -> a_saved a = None.
 Proof. unfold a_saved. intros -> ->. reflexivity. Qed.
 
+Lemma a_saved_cases a :
+  (a_saved a = None /\ a_snap a = None /\ a_tail a = [])
+  \/ (a_saved a = Some (a_snap a, a_tail a) /\ (a_snap a, a_tail a) <> (None, [])).
+Proof.
+  unfold a_saved. destruct (a_snap a); destruct (a_tail a); auto; right; split; auto; discriminate.
+Qed.
+
+Lemma inv_stored_view c a : Inv c a -> stored_view c = a_stored a.
+Proof.
+  intros HI. pose proof (inv_sto _ _ HI) as H. unfold sto_rel in H. unfold stored_view.
+  destruct (storage c) as [[sn s]|]; [destruct H as [H _]|]; congruence.
+Qed.
+
 (* ------------------------------------------------------------------ StateChanged *)
 
 Lemma state_changed_spec g c e :
   recovering c = false ->
   s_arr (j_events (jr c)) < length (hp c) ->
+  hwf (hp c) ->
   let t := contents (hp c) (j_events (jr c)) in
   let c' := fst (state_changed repaired g c e) in
   let num := snd (state_changed repaired g c e) in
@@ -128,20 +216,32 @@ Lemma state_changed_spec g c e :
   /\ (if (threshold c <=? num)%Z
       then j_snap (jr c') = Some (actor c) /\ contents (hp c') (j_events (jr c')) = [] /\ snapreq_seen c' = true
       else j_snap (jr c') = j_snap (jr c) /\ contents (hp c') (j_events (jr c')) = t ++ [e]
-           /\ snapreq_seen c' = snapreq_seen c).
+           /\ snapreq_seen c' = snapreq_seen c)
+  /\ hwf (hp c')
+  /\ (forall s0, s_arr s0 < length (hp c) -> sep s0 (j_events (jr c)) ->
+        contents (hp c') s0 = contents (hp c) s0 /\ s_arr s0 < length (hp c') /\ sep s0 (j_events (jr c'))).
 Proof.
-  intros Hrec Hwf. cbv zeta.
+  intros Hrec Hwf Hh. cbv zeta.
   unfold state_changed. rewrite Hrec.
   unfold j_append.
   pose proof (sl_append_spec g (hp c) (j_events (jr c)) e Hwf) as (Hc & Hw & Hl).
-  destruct (sl_append g (hp c) (j_events (jr c)) e) as [h' s'] eqn:E. cbn [fst snd] in Hc, Hw, Hl.
+  pose proof (sl_append_hwf g (hp c) (j_events (jr c)) e Hh Hwf) as Hh'.
+  assert (Hfr : forall s0, s_arr s0 < length (hp c) -> sep s0 (j_events (jr c)) ->
+            contents (fst (sl_append g (hp c) (j_events (jr c)) e)) s0 = contents (hp c) s0
+            /\ s_arr s0 < length (fst (sl_append g (hp c) (j_events (jr c)) e))
+            /\ sep s0 (snd (sl_append g (hp c) (j_events (jr c)) e))).
+  { intros s0 H0 Hs. pose proof (sl_append_frame g (hp c) (j_events (jr c)) e s0 Hh Hwf H0 Hs) as (F1 & _ & F3 & F4).
+    auto. }
+  destruct (sl_append g (hp c) (j_events (jr c)) e) as [h' s'] eqn:E. cbn [fst snd] in Hc, Hw, Hl, Hh', Hfr.
   unfold event_count. cbn [set_hp_jr jr j_events hp threshold].
   rewrite Hl, contents_length.
   destruct (threshold c <=? Z.of_nat (S (s_len (j_events (jr c)))))%Z eqn:Eth;
     cbn [fst snd repaired v_restore].
   - unfold process_snapreq, on_snapreq, save_snapshot.
-    cbn. rewrite Hrec. cbn. rewrite ?Eth. repeat split; auto.
-  - cbn. rewrite ?Eth. repeat split; auto.
+    cbn. rewrite Hrec. cbn. rewrite ?Eth.
+    do 10 (split; [solve [auto]|]). intros s0 H0 Hs. apply Hfr; auto.
+  - cbn. rewrite ?Eth.
+    do 10 (split; [solve [auto]|]). intros s0 H0 Hs. apply Hfr; auto.
 Qed.
 
 (* ------------------------------------------------------------------ replay while recovering *)
@@ -185,195 +285,237 @@ Qed.
 
 (* ------------------------------------------------------------------ launch = OnLaunch + recovery *)
 
-Lemma launch_spec g c a :
-  recovering c = false -> actor c = [] -> threshold c = a_th a ->
+(* whatever the journal of the context held, after the launch it is what the storage holds (nothing if nothing is
+   stored), and so is the state of the new instance *)
+Lemma launch_spec g c a th :
+  recovering c = false -> actor c = [] -> threshold c = th ->
   s_arr (j_events (jr c)) < length (hp c) ->
-  ( (storage c = None /\ j_snap (jr c) = None /\ contents (hp c) (j_events (jr c)) = []
-     /\ a_snap a = None /\ a_tail a = [])
-    \/ (exists evs, storage c = Some (a_snap a, evs) /\ s_arr evs < length (hp c)
-                    /\ contents (hp c) evs = a_tail a /\ a_saved a <> None) ) ->
-  Inv (fst (fst (launch repaired g c))) a
-  /\ snd (fst (launch repaired g c)) = a_trace a
-  /\ snd (launch repaired g c) = a_counts a.
+  hwf (hp c) -> sto_rel c a -> awf a ->
+  Inv (fst (fst (launch repaired g c))) (a_recover th a)
+  /\ snd (fst (launch repaired g c)) = a_trace (a_recover th a)
+  /\ snd (launch repaired g c) = a_counts (a_recover th a).
 Proof.
-  intros Hrec Hact Hth Hwf [(Hsto & Hsn & Hct & Has & Hat)|(evs & Hsto & Hwe & Hce & Hsv)].
-  - unfold launch, recover, state_load. cbn [set_regs storage]. rewrite Hsto. cbn [fst snd].
-    split; [|split].
-    + constructor; cbn; auto.
-      * rewrite Hsn, Has. reflexivity.
-      * rewrite Hct, Hat. reflexivity.
-      * rewrite Hact. unfold a_state. rewrite Has, Hat. reflexivity.
-    + unfold a_trace. rewrite Has, Hat. reflexivity.
-    + unfold a_counts. rewrite Hat. reflexivity.
-  - unfold launch, recover, state_load. cbn [set_regs storage]. rewrite Hsto.
-    cbn [repaired v_seed hp].
-    assert (Hne : 0 < length (hp c)) by lia.
-    pose proof (sl_copy_spec g (hp c) evs Hne) as (Hcc & Hcw & Hco & Hcl).
-    destruct (sl_copy g (hp c) evs) as [h' s'] eqn:E. cbn [fst snd] in Hcc, Hcw, Hco, Hcl.
+  intros Hrec Hact Hth Hwf Hh Hsto Hawf.
+  unfold sto_rel in Hsto. unfold launch, recover, state_load. cbn [set_regs storage].
+  destruct (storage c) as [[sn evs]|] eqn:Est.
+  - destruct Hsto as [Hsa Hwe].
+    assert (Hne : (sn, contents (hp c) evs) <> (None, [])) by (apply (Hawf _ Hsa)).
+    unfold a_recover. rewrite Hsa.
+    set (t := contents (hp c) evs) in *.
+    cbn [repaired v_seed v_load_copies hp].
+    pose proof (sl_copy_spec g (hp c) evs Hh) as (Hcc & Hcw & Hco & Hcl & Hch & Hcg & Hcs).
+    destruct (sl_copy g (hp c) evs) as [h' s'] eqn:E. cbn [fst snd] in Hcc, Hcw, Hco, Hcl, Hch, Hcg, Hcs.
     change (hp (set_regs c MLaunch WParent)) with (hp c). rewrite E.
-    set (c1 := set_recovering (set_hp_jr (set_regs c MLaunch WParent) h' {| j_snap := a_snap a; j_events := s' |}) true).
-    set (c3 := match a_snap a with Some s => process_snap c1 s | None => c1 end).
-    assert (Hrec3 : recovering c3 = true) by (unfold c3; destruct (a_snap a); reflexivity).
-    assert (Hhp3 : hp c3 = h') by (unfold c3; destruct (a_snap a); reflexivity).
-    assert (Hjr3 : jr c3 = {| j_snap := a_snap a; j_events := s' |}) by (unfold c3; destruct (a_snap a); reflexivity).
-    assert (Hth3 : threshold c3 = threshold c) by (unfold c3; destruct (a_snap a); reflexivity).
-    assert (Hst3 : storage c3 = Some (a_snap a, evs)) by (unfold c3; destruct (a_snap a); cbn; exact Hsto).
-    assert (Hac3 : actor c3 = snap_list (a_snap a)).
-    { unfold c3; destruct (a_snap a); cbn; auto. }
+    set (c1 := set_recovering (set_hp_jr (set_regs c MLaunch WParent) h' {| j_snap := sn; j_events := s' |}) true).
+    set (c3 := match sn with Some s => process_snap c1 s | None => c1 end).
+    assert (Hrec3 : recovering c3 = true) by (unfold c3; destruct sn; reflexivity).
+    assert (Hhp3 : hp c3 = h') by (unfold c3; destruct sn; reflexivity).
+    assert (Hjr3 : jr c3 = {| j_snap := sn; j_events := s' |}) by (unfold c3; destruct sn; reflexivity).
+    assert (Hth3 : threshold c3 = threshold c) by (unfold c3; destruct sn; reflexivity).
+    assert (Hst3 : storage c3 = Some (sn, evs)) by (unfold c3; destruct sn; cbn; exact Est).
+    assert (Hac3 : actor c3 = snap_list sn).
+    { unfold c3; destruct sn; cbn; auto. }
     pose proof (replay_recovering g evs (s_len evs) 0 c3 Hrec3) as Hrp. cbv zeta in Hrp.
     destruct (replay repaired g c3 evs 0 (s_len evs)) as [[c4 es] ns] eqn:E4.
     cbn [fst snd] in Hrp |- *.
     destruct Hrp as (H1 & H2 & H3 & H4 & H5 & H6 & H7 & H8).
-    assert (Hes : es = a_tail a).
+    assert (Hes : es = t).
     { rewrite H7, Hhp3. change (map (read h' evs) (seq 0 (s_len evs))) with (contents h' evs).
-      rewrite Hco by exact Hwe. exact Hce. }
-    assert (Hlen : s_len evs = length (a_tail a)).
-    { rewrite <- Hce, contents_length. reflexivity. }
+      rewrite Hco by exact Hwe. reflexivity. }
+    assert (Hlen : s_len evs = length t).
+    { unfold t. rewrite contents_length. reflexivity. }
     split; [|split].
-    + constructor; cbn [set_recovering recovering threshold jr hp actor storage].
+    + constructor; cbn [set_recovering recovering threshold jr hp actor storage a_th a_snap a_tail a_stored].
       * reflexivity.
       * rewrite H4, Hth3. exact Hth.
       * rewrite H2, Hjr3. reflexivity.
-      * rewrite H1, H2, Hhp3, Hjr3. cbn [j_events]. rewrite Hcc. exact Hce.
+      * rewrite H1, H2, Hhp3, Hjr3. cbn [j_events]. rewrite Hcc. reflexivity.
       * rewrite H6, Hac3, Hes. reflexivity.
       * rewrite H1, H2, Hhp3, Hjr3. cbn [j_events]. exact Hcw.
-      * right. exact Hsv.
-    + unfold a_trace. rewrite Hes. destruct (a_snap a); reflexivity.
-    + rewrite H8. unfold a_counts, event_count. rewrite Hjr3. cbn [j_events].
+      * rewrite H1, Hhp3. exact Hch.
+      * unfold sto_rel. cbn [set_recovering storage hp a_stored]. rewrite H5, Hst3, H1, Hhp3.
+        rewrite Hco by exact Hwe. split; [reflexivity|lia].
+      * unfold sto_sep. cbn [set_recovering storage jr]. rewrite H5, Hst3, H2, Hjr3. cbn [j_events].
+        apply Hcs. exact Hwe.
+      * intros r Hr. cbn [a_stored] in Hr. inversion Hr; subst r. split; [exact Hne|].
+        destruct (a_saved_cases {| a_th := th; a_snap := sn; a_tail := t; a_stored := Some (sn, t) |})
+          as [(_ & Hs1 & Hs2)|(Hs1 & _)]; cbn [a_snap a_tail] in *.
+        -- exfalso. apply Hne. congruence.
+        -- rewrite Hs1. discriminate.
+    + unfold a_trace. cbn [a_snap a_tail]. rewrite Hes. destruct sn; reflexivity.
+    + rewrite H8. unfold a_counts, event_count. rewrite Hjr3. cbn [j_events a_tail].
       rewrite Hcl, Hlen. reflexivity.
+  - unfold a_recover. rewrite Hsto. cbn [repaired v_norec_resets fst snd].
+    split; [|split]; try reflexivity.
+    constructor; cbn; auto.
+    + destruct Hh; assumption.
+    + unfold sto_rel. cbn. rewrite Est. reflexivity.
+    + unfold sto_sep. cbn. rewrite Est. exact I.
+    + intros r Hr. discriminate.
 Qed.
 
-(* persist of a context that satisfies the invariant *)
-Lemma persist_spec c a :
+(* ------------------------------------------------------------------ persist *)
+
+Lemma inv_set_regs c a m w : Inv c a -> Inv (set_regs c m w) a.
+Proof. intros [H1 H2 H3 H4 H5 H6 H7 H8 H9 H10]. constructor; cbn; auto. Qed.
+
+(* persist of a context that satisfies the invariant: Save receives the abstract journal; the storage is replaced
+   by a copy unless the save fails or there is nothing to save; nothing else changes *)
+Lemma persist_spec g fault c a :
   Inv c a ->
-  snd (persist c) = a_saved a
-  /\ hp (fst (persist c)) = hp c /\ jr (fst (persist c)) = jr c
-  /\ recovering (fst (persist c)) = false /\ threshold (fst (persist c)) = threshold c
-  /\ actor (fst (persist c)) = actor c
-  /\ cur_msg (fst (persist c)) = cur_msg c /\ cur_sender (fst (persist c)) = cur_sender c
-  /\ ( (storage (fst (persist c)) = None /\ a_snap a = None /\ a_tail a = [])
-       \/ (storage (fst (persist c)) = Some (a_snap a, j_events (jr c)) /\ a_saved a <> None) ).
+  snd (persist repaired g fault c) = a_saved a
+  /\ Inv (fst (persist repaired g fault c)) (a_persist fault a)
+  /\ actor (fst (persist repaired g fault c)) = actor c
+  /\ threshold (fst (persist repaired g fault c)) = threshold c
+  /\ cur_msg (fst (persist repaired g fault c)) = cur_msg c
+  /\ cur_sender (fst (persist repaired g fault c)) = cur_sender c.
 Proof.
-  intros [Hrec Hth Hsn Htl Hac Hwf Hst].
-  unfold persist.
+  intros HI. pose proof HI as [Hrec Hth Hsn Htl Hac Hwf Hh Hsto Hsep Hawf].
+  unfold persist, a_persist.
   pose proof (contents_length (hp c) (j_events (jr c))) as Hlen. rewrite Htl in Hlen.
-  destruct (j_snap (jr c)) as [sn|] eqn:Es.
-  - assert (Hsv : a_saved a = Some (a_snap a, a_tail a)).
-    { apply a_saved_some. left. rewrite <- Hsn. discriminate. }
-    cbn [fst snd set_storage hp jr recovering threshold actor cur_msg cur_sender storage].
-    rewrite Htl, Hsv, <- Hsn. repeat split; auto.
-    right. split; [reflexivity|discriminate].
-  - destruct (s_len (j_events (jr c))) as [|k] eqn:El.
-    + assert (Ht : a_tail a = []) by (destruct (a_tail a); [reflexivity|cbn in Hlen; lia]).
-      assert (Hsv : a_saved a = None) by (apply a_saved_none; auto).
-      cbn [fst snd]. rewrite Hsv. repeat split; auto.
-      left. destruct Hst as [Hst|Hst]; [auto|contradiction].
-    + assert (Hsv : a_saved a = Some (a_snap a, a_tail a)).
-      { apply a_saved_some. right. destruct (a_tail a); [cbn in Hlen; lia|discriminate]. }
-      cbn [fst snd set_storage hp jr recovering threshold actor cur_msg cur_sender storage].
-      rewrite Htl, Hsv, <- Hsn. repeat split; auto.
-      right. split; [reflexivity|discriminate].
+  destruct (a_saved_cases a) as [(Hsv & Hs1 & Hs2)|(Hsv & Hne)].
+  - (* nothing to save *)
+    rewrite Hsn, Hs1. rewrite Hs2 in Hlen. cbn in Hlen. rewrite <- Hlen, Hsv.
+    destruct fault; cbn [fst snd]; auto 10.
+  - rewrite Hsv.
+    assert (Hrecv : Some (j_snap (jr c), contents (hp c) (j_events (jr c))) = Some (a_snap a, a_tail a))
+      by (rewrite Hsn, Htl; reflexivity).
+    assert (Hbr : forall (X : ctx * saved_rec),
+              match j_snap (jr c), s_len (j_events (jr c)) with None, O => (c, None) | _, _ => X end = X).
+    { intros X. rewrite Hsn. destruct (a_snap a) as [x|]; [reflexivity|].
+      destruct (s_len (j_events (jr c))) eqn:El; [|reflexivity].
+      exfalso. apply Hne. f_equal. destruct (a_tail a); [reflexivity|cbn in Hlen; lia]. }
+    rewrite Hbr. clear Hbr.
+    destruct fault.
+    + cbn [fst snd]. rewrite Hrecv. auto 10.
+    + cbn [repaired v_save_copies].
+      pose proof (sl_copy_spec g (hp c) (j_events (jr c)) Hh) as (Hcc & Hcw & Hco & Hcl & Hch & Hcg & Hcs).
+      destruct (sl_copy g (hp c) (j_events (jr c))) as [h' s'] eqn:E.
+      cbn [fst snd] in Hcc, Hcw, Hco, Hcl, Hch, Hcg, Hcs |- *.
+      rewrite Hrecv. split; [reflexivity|]. split; [|auto].
+      constructor; cbn [set_storage set_hp_jr recovering threshold jr hp actor storage a_th a_snap a_tail a_stored]; auto.
+      * rewrite Hco by exact Hwf. exact Htl.
+      * lia.
+      * unfold sto_rel. cbn [set_storage set_hp_jr storage hp a_stored].
+        rewrite Hcc, Hsn, Htl. split; [reflexivity|exact Hcw].
+      * unfold sto_sep. cbn [set_storage set_hp_jr storage jr]. apply Hcs. exact Hwf.
+      * intros r Hr. cbn [a_stored] in Hr. inversion Hr; subst r. split; [exact Hne|].
+        change (a_saved {| a_th := a_th a; a_snap := a_snap a; a_tail := a_tail a; a_stored := Some (a_snap a, a_tail a) |})
+          with (a_saved a). rewrite Hsv. discriminate.
 Qed.
 
 (* ------------------------------------------------------------------ one step *)
 
-Lemma inv_set_regs c a m w : Inv c a -> Inv (set_regs c m w) a.
-Proof. intros [H1 H2 H3 H4 H5 H6 H7]. constructor; cbn; auto. Qed.
+Lemma mark_eq fault s s' o o' : s = s' -> o = o' -> mark fault s o = mark fault s' o'.
+Proof. intros -> ->. reflexivity. Qed.
+
+Lemma a_th_persist fault a : a_th (a_persist fault a) = a_th a.
+Proof. unfold a_persist. destruct fault; destruct (a_saved a); reflexivity. Qed.
+
+Lemma fail_refines g fault c a :
+  Inv c a ->
+  Inv (fst (fail repaired g fault c)) (fst (a_relaunch fault (a_th a) a))
+  /\ snd (fail repaired g fault c) = snd (a_relaunch fault (a_th a) a).
+Proof.
+  intros HI. unfold fail, a_relaunch.
+  pose proof (persist_spec g fault _ _ (inv_set_regs c a MCrash WNone HI)) as (Hsv & HI1 & _ & Ht & _ & _).
+  destruct (persist repaired g fault (set_regs c MCrash WNone)) as [c1 saved] eqn:E. cbn [fst snd] in Hsv, HI1, Ht.
+  cbn [set_regs threshold] in Ht.
+  pose proof (launch_spec g (set_actor c1 [] false) (a_persist fault a) (a_th a)) as HL.
+  cbn [set_actor recovering actor threshold jr hp] in HL.
+  assert (HL' := HL (inv_rec _ _ HI1) eq_refl (eq_trans Ht (inv_th _ _ HI)) (inv_wf _ _ HI1) (inv_heap _ _ HI1)
+                    (inv_sto _ _ HI1) (inv_awf _ _ HI1)).
+  clear HL.
+  destruct (launch repaired g (set_actor c1 [] false)) as [[c2 trace] counts] eqn:EL.
+  cbn [fst snd] in HL' |- *. destruct HL' as (HI2 & Htr & Hcn).
+  split; [exact HI2|]. apply mark_eq; [exact Hsv|].
+  rewrite Hsv, Htr, Hcn, (inv_actor _ _ HI2). reflexivity.
+Qed.
+
+Lemma stop_recreate_refines g fault c a th :
+  Inv c a ->
+  Inv (fst (stop_recreate repaired g fault c th)) (fst (a_relaunch fault th a))
+  /\ snd (stop_recreate repaired g fault c th) = snd (a_relaunch fault th a).
+Proof.
+  intros HI. unfold stop_recreate, a_relaunch.
+  pose proof (persist_spec g fault _ _ HI) as (Hsv & HI1 & _ & _ & _ & _).
+  destruct (persist repaired g fault c) as [c1 saved] eqn:E. cbn [fst snd] in Hsv, HI1.
+  pose proof (launch_spec g (fresh_ctx (hp c1) (storage c1) th) (a_persist fault a) th) as HL.
+  cbn [fresh_ctx recovering actor threshold jr hp j_events empty_journal nil_slice s_arr] in HL.
+  pose proof (inv_heap _ _ HI1) as Hh.
+  assert (HL' := HL eq_refl eq_refl eq_refl (proj1 Hh) Hh (inv_sto _ _ HI1) (inv_awf _ _ HI1)).
+  clear HL.
+  destruct (launch repaired g (fresh_ctx (hp c1) (storage c1) th)) as [[c2 trace] counts] eqn:EL.
+  cbn [fst snd] in HL' |- *. destruct HL' as (HI2 & Htr & Hcn).
+  split; [exact HI2|]. apply mark_eq; [exact Hsv|].
+  rewrite Hsv, Htr, Hcn, (inv_actor _ _ HI2). reflexivity.
+Qed.
+
+Lemma explicit_persist_refines g fault c a :
+  Inv c a ->
+  Inv (fst (explicit_persist repaired g fault c)) (fst (a_explicit fault a))
+  /\ snd (explicit_persist repaired g fault c) = snd (a_explicit fault a).
+Proof.
+  intros HI. unfold explicit_persist, a_explicit.
+  pose proof (persist_spec g fault _ _ (inv_set_regs c a MPersist WAsker HI)) as (Hsv & HI1 & _).
+  destruct (persist repaired g fault (set_regs c MPersist WAsker)) as [c1 saved] eqn:E. cbn [fst snd] in Hsv, HI1 |- *.
+  split; [exact HI1|]. rewrite Hsv. reflexivity.
+Qed.
 
 Lemma step_refines g c a o :
   Inv c a ->
   Inv (fst (step repaired g c o)) (fst (astep a o)) /\ snd (step repaired g c o) = snd (astep a o).
 Proof.
-  intros HI. destruct o as [e| |th'| |].
+  intros HI. destruct o as [e| |th'| | | | |th'].
   - (* Event *)
-    destruct HI as [Hrec Hth Hsn Htl Hac Hwf Hst].
+    destruct HI as [Hrec Hth Hsn Htl Hac Hwf Hh Hsto Hsep Hawf].
     cbn [step astep]. unfold process_add, on_add. cbn [repaired v_record_first].
     change (actor (set_regs c (MAdd e) WAsker)) with (actor c).
     set (c0 := set_actor (set_regs c (MAdd e) WAsker) (actor c ++ [e]) false).
     assert (Hrec0 : recovering c0 = false) by exact Hrec.
     assert (Hwf0 : s_arr (j_events (jr c0)) < length (hp c0)) by exact Hwf.
-    pose proof (state_changed_spec g c0 e Hrec0 Hwf0) as Hsc. cbv zeta in Hsc.
+    assert (Hh0 : hwf (hp c0)) by exact Hh.
+    pose proof (state_changed_spec g c0 e Hrec0 Hwf0 Hh0) as Hsc. cbv zeta in Hsc.
     destruct (state_changed repaired g c0 e) as [c1 num] eqn:E. cbn [fst snd] in Hsc |- *.
     change (hp c0) with (hp c) in Hsc. change (jr c0) with (jr c) in Hsc.
     change (threshold c0) with (threshold c) in Hsc. change (cur_msg c0) with (MAdd e) in Hsc.
     change (cur_sender c0) with WAsker in Hsc. change (storage c0) with (storage c) in Hsc.
     change (actor c0) with (actor c ++ [e]) in Hsc. change (snapreq_seen c0) with false in Hsc.
     rewrite Htl, Hth in Hsc.
-    destruct Hsc as (Hn & Hm & Hw & Hr & Ht & Hs & Ha & Hwf1 & Hcase).
+    destruct Hsc as (Hn & Hm & Hw & Hr & Ht & Hs & Ha & Hwf1 & Hcase & Hh1 & Hfr).
+    (* the stored record is untouched *)
+    assert (Hsto1 : forall a', a_stored a' = a_stored a -> sto_rel c1 a' /\ sto_sep c1).
+    { intros a' Ha'. unfold sto_rel, sto_sep in *. rewrite Hs, Ha'.
+      destruct (storage c) as [[sn s]|]; [|auto].
+      destruct Hsto as [Hs1 Hs2]. destruct (Hfr s Hs2 Hsep) as (F1 & F2 & F3).
+      rewrite F1. auto. }
     rewrite app_length. cbn [length]. rewrite Nat.add_1_r.
     rewrite Hn in Hcase.
     destruct (a_th a <=? Z.of_nat (S (length (a_tail a))))%Z eqn:Eth; cbn [fst snd].
     + destruct Hcase as (Hj & Hc & Hq). split.
-      * constructor; cbn [a_th a_snap a_tail]; auto.
+      * constructor; cbn [a_th a_snap a_tail]; auto; try (apply Hsto1; reflexivity).
         -- rewrite Hj, Hac. reflexivity.
         -- rewrite Ha, Hac. unfold a_state at 2. cbn [a_snap a_tail snap_list]. rewrite app_nil_r. reflexivity.
-        -- right. unfold a_saved. cbn. discriminate.
+        -- apply (Hsto1 a eq_refl).
+        -- intros r Hr'. cbn [a_stored] in Hr'. split; [apply (Hawf _ Hr')|]. unfold a_saved. cbn. discriminate.
       * rewrite Hn, Hm, Hw, Hq. reflexivity.
     + destruct Hcase as (Hj & Hc & Hq). split.
-      * constructor; cbn [a_th a_snap a_tail]; auto.
+      * constructor; cbn [a_th a_snap a_tail]; auto; try (apply Hsto1; reflexivity).
         -- rewrite Hj. exact Hsn.
         -- rewrite Ha, Hac. unfold a_state. cbn [a_snap a_tail]. rewrite app_assoc. reflexivity.
-        -- right. unfold a_saved. cbn [a_snap a_tail]. destruct (a_snap a); destruct (a_tail a); discriminate.
+        -- apply (Hsto1 a eq_refl).
+        -- intros r Hr'. cbn [a_stored] in Hr'. split; [apply (Hawf _ Hr')|].
+           unfold a_saved. cbn [a_snap a_tail]. destruct (a_snap a); destruct (a_tail a); discriminate.
       * rewrite Hn, Hm, Hw, Hq. reflexivity.
-  - (* Fail *)
-    cbn [step astep]. unfold fail.
-    pose proof (persist_spec _ _ (inv_set_regs c a MCrash WNone HI)) as Hp.
-    destruct (persist (set_regs c MCrash WNone)) as [c1 saved] eqn:E. cbn [fst snd] in Hp.
-    destruct Hp as (Hsv & Hh & Hj & Hr & Ht & Ha & _ & _ & Hsto).
-    destruct HI as [Hrec Hth Hsn Htl Hac Hwf Hst].
-    cbn [set_regs hp jr threshold] in Hh, Hj, Ht.
-    assert (HL := launch_spec g (set_actor c1 [] false) a).
-    cbn [set_actor recovering actor threshold jr hp storage] in HL.
-    rewrite Hh, Hj, Ht in HL.
-    specialize (HL Hr eq_refl Hth Hwf).
-    destruct (launch repaired g (set_actor c1 [] false)) as [[c2 trace] counts] eqn:EL.
-    cbn [fst snd] in HL |- *.
-    assert (HL' : Inv c2 a /\ trace = a_trace a /\ counts = a_counts a).
-    { apply HL. destruct Hsto as [(Hs0 & Hs1 & Hs2)|(Hs0 & Hs1)].
-      - left. repeat split; auto. + rewrite Hsn. exact Hs1. + rewrite Htl. exact Hs2.
-      - right. exists (j_events (jr c)). repeat split; auto. }
-    destruct HL' as (HI2 & Htr & Hcn). split; [exact HI2|].
-    unfold a_launch. rewrite Hsv, Htr, Hcn, (inv_actor _ _ HI2). reflexivity.
-  - (* StopRecreate *)
-    cbn [step astep]. unfold stop_recreate.
-    pose proof (persist_spec _ _ HI) as Hp.
-    destruct (persist c) as [c1 saved] eqn:E. cbn [fst snd] in Hp.
-    destruct Hp as (Hsv & Hh & Hj & Hr & Ht & Ha & _ & _ & Hsto).
-    destruct HI as [Hrec Hth Hsn Htl Hac Hwf Hst].
-    set (a' := {| a_th := th'; a_snap := a_snap a; a_tail := a_tail a |}).
-    assert (HL := launch_spec g (fresh_ctx (hp c1) (storage c1) th') a').
-    cbn [fresh_ctx recovering actor threshold jr hp storage j_events j_snap nil_slice s_arr a' a_th a_snap a_tail] in HL.
-    rewrite Hh in HL.
-    assert (Hne : 0 < length (hp c)) by lia.
-    specialize (HL eq_refl eq_refl eq_refl Hne).
-    change (a_saved a') with (a_saved a) in HL.
-    rewrite Hh.
-    destruct (launch repaired g (fresh_ctx (hp c) (storage c1) th')) as [[c2 trace] counts] eqn:EL.
-    cbn [fst snd] in HL |- *.
-    assert (HL' : Inv c2 a' /\ trace = a_trace a' /\ counts = a_counts a').
-    { apply HL. destruct Hsto as [(Hs0 & Hs1 & Hs2)|(Hs0 & Hs1)].
-      - left. repeat split; auto.
-      - right. exists (j_events (jr c)). repeat split; auto. }
-    destruct HL' as (HI2 & Htr & Hcn). split; [exact HI2|].
-    unfold a_launch. rewrite Hsv, Htr, Hcn, (inv_actor _ _ HI2). reflexivity.
-  - (* Persist *)
-    cbn [step astep].
-    pose proof (persist_spec _ _ (inv_set_regs c a MPersist WAsker HI)) as Hp.
-    destruct (persist (set_regs c MPersist WAsker)) as [c1 saved] eqn:E. cbn [fst snd] in Hp |- *.
-    destruct Hp as (Hsv & Hh & Hj & Hr & Ht & Ha & _ & _ & Hsto).
-    destruct HI as [Hrec Hth Hsn Htl Hac Hwf Hst].
-    cbn [set_regs hp jr threshold actor] in Hh, Hj, Ht, Ha.
-    split; [|rewrite Hsv; reflexivity].
-    constructor; auto.
-    + rewrite Ht. exact Hth.
-    + rewrite Hj. exact Hsn.
-    + rewrite Hh, Hj. exact Htl.
-    + rewrite Ha. exact Hac.
-    + rewrite Hh, Hj. exact Hwf.
-    + destruct Hsto as [(Hs0 & _)|(_ & Hs1)]; auto.
+  - cbn [step astep]. apply fail_refines. exact HI.
+  - cbn [step astep]. apply stop_recreate_refines. exact HI.
+  - cbn [step astep]. apply explicit_persist_refines. exact HI.
   - (* Query *)
     cbn [step astep fst snd]. split; [apply inv_set_regs; exact HI|].
     rewrite (inv_actor _ _ HI). reflexivity.
+  - cbn [step astep]. apply explicit_persist_refines. exact HI.
+  - cbn [step astep]. apply fail_refines. exact HI.
+  - cbn [step astep]. apply stop_recreate_refines. exact HI.
 Qed.
 
 Lemma run_from_refines g : forall ops c a,
@@ -394,9 +536,13 @@ Qed.
 Lemma init_inv g th : Inv (init repaired g th) (ainit th).
 Proof.
   unfold init.
-  pose proof (launch_spec g (fresh_ctx init_heap None th) (ainit th)) as HL.
-  cbn [fresh_ctx recovering actor threshold jr hp storage j_events j_snap nil_slice s_arr ainit a_th a_snap a_tail init_heap length] in HL.
-  apply HL; auto. left. repeat split; auto.
+  pose proof (launch_spec g (fresh_ctx init_heap None th) (ainit th) th) as HL.
+  cbn [fresh_ctx recovering actor threshold jr hp storage j_events empty_journal nil_slice s_arr init_heap length] in HL.
+  assert (Hh : hwf [[]]) by (split; [cbn; lia|reflexivity]).
+  assert (HL' := HL eq_refl eq_refl eq_refl (proj1 Hh) Hh).
+  apply HL'.
+  - reflexivity.
+  - intros r Hr. discriminate.
 Qed.
 
 Theorem run_refines g th ops :
@@ -404,57 +550,334 @@ Theorem run_refines g th ops :
   /\ snd (run repaired g th ops) = snd (arun th ops).
 Proof. unfold run, arun. apply run_from_refines. apply init_inv. Qed.
 
+(* ------------------------------------------------------------------ histories *)
+
+Lemma run_from_app v g : forall ops c more,
+  run_from v g c (ops ++ more)
+  = (fst (run_from v g (fst (run_from v g c ops)) more),
+     snd (run_from v g c ops) ++ snd (run_from v g (fst (run_from v g c ops)) more)).
+Proof.
+  induction ops as [|o ops IH]; intros c more; cbn [run_from app].
+  - cbn. destruct (run_from v g c more). reflexivity.
+  - destruct (step v g c o) as [c1 x]. rewrite IH.
+    destruct (run_from v g c1 ops) as [c2 xs]. cbn [fst snd].
+    destruct (run_from v g c2 more) as [c3 ys]. reflexivity.
+Qed.
+
+Lemma arun_from_app : forall ops a more,
+  arun_from a (ops ++ more)
+  = (fst (arun_from (fst (arun_from a ops)) more),
+     snd (arun_from a ops) ++ snd (arun_from (fst (arun_from a ops)) more)).
+Proof.
+  induction ops as [|o ops IH]; intros a more; cbn [arun_from app].
+  - cbn. destruct (arun_from a more). reflexivity.
+  - destruct (astep a o) as [a1 x]. rewrite IH.
+    destruct (arun_from a1 ops) as [a2 xs]. cbn [fst snd].
+    destruct (arun_from a2 more) as [a3 ys]. reflexivity.
+Qed.
+
+Lemma run_snoc g th ops o :
+  fst (run repaired g th (ops ++ [o])) = fst (step repaired g (fst (run repaired g th ops)) o).
+Proof.
+  unfold run. rewrite run_from_app. cbn [fst run_from].
+  destruct (step repaired g (fst (run_from repaired g (init repaired g th) ops)) o). reflexivity.
+Qed.
+
+Lemma arun_snoc th ops o : fst (arun th (ops ++ [o])) = fst (astep (fst (arun th ops)) o).
+Proof.
+  unfold arun. rewrite arun_from_app. cbn [fst arun_from].
+  destruct (astep (fst (arun_from (ainit th) ops)) o). reflexivity.
+Qed.
+
 (* ------------------------------------------------------------------ facts about the abstract journal *)
 
-Lemma astep_state a o :
-  a_state (fst (astep a o)) = a_state a ++ match o with Event e => [e] | _ => [] end.
+(* the state a launch rebuilds from the stored record *)
+Definition a_pers (a : ajr) : list Z := rebuilds (a_stored a).
+
+Lemma track_cons l p o t :
+  track l p (o :: t) = track (fst (track l p [o])) (snd (track l p [o])) t.
+Proof. destruct o; reflexivity. Qed.
+
+Lemma track_app : forall ops l p more,
+  track l p (ops ++ more) = track (fst (track l p ops)) (snd (track l p ops)) more.
 Proof.
-  destruct o; cbn [astep]; try (cbn; rewrite app_nil_r; reflexivity).
-  destruct (a_th a <=? _)%Z; cbn [fst]; unfold a_state; cbn [a_snap a_tail snap_list].
-  - rewrite app_nil_r. reflexivity.
-  - rewrite app_assoc. reflexivity.
+  induction ops as [|o ops IH]; intros l p more.
+  - reflexivity.
+  - cbn [app]. rewrite track_cons, IH, (track_cons l p o ops). reflexivity.
 Qed.
 
-Lemma arun_from_state : forall ops a,
-  a_state (fst (arun_from a ops)) = a_state a ++ recorded ops.
+Lemma awf_saved_none a : awf a -> a_saved a = None -> a_stored a = None.
 Proof.
-  induction ops as [|o ops IH]; intros a; cbn [arun_from recorded flat_map].
+  intros Hw Hs. destruct (a_stored a) as [r|] eqn:E; [|reflexivity].
+  destruct (Hw r E) as [_ H]. contradiction.
+Qed.
+
+(* one step of the abstract journal is one step of [track] *)
+Lemma astep_track a o :
+  awf a ->
+  (a_state (fst (astep a o)), a_pers (fst (astep a o))) = track (a_state a) (a_pers a) [o].
+Proof.
+  intros Hw.
+  assert (Hper : forall a0, a_saved a0 = Some (a_snap a0, a_tail a0) ->
+            a_state (a_persist false a0) = a_state a0 /\ a_pers (a_persist false a0) = a_state a0).
+  { intros a0 H. unfold a_persist. rewrite H. split; reflexivity. }
+  assert (Hrec : forall th a0, a_state (a_recover th a0) = a_pers a0 /\ a_pers (a_recover th a0) = a_pers a0).
+  { intros th a0. unfold a_recover, a_pers, rebuilds. destruct (a_stored a0) as [[s t]|] eqn:E; cbn; auto. }
+  assert (Hnone : a_saved a = None -> a_state a = [] /\ a_pers a = [] /\ a_persist false a = a).
+  { intros H. pose proof (awf_saved_none a Hw H) as Hs.
+    destruct (a_saved_cases a) as [(_ & H1 & H2)|(H1 & _)]; [|congruence].
+    unfold a_state, a_pers, rebuilds, a_persist. rewrite H1, H2, Hs, H. auto. }
+  assert (Hok : a_state (a_persist false a) = a_state a /\ a_pers (a_persist false a) = a_state a).
+  { destruct (a_saved_cases a) as [(H & _)|(H & _)].
+    - destruct (Hnone H) as (H1 & H2 & H3). rewrite H3, H1, H2. auto.
+    - apply Hper. exact H. }
+  destruct o as [e| |th'| | | | |th']; cbn [astep track a_relaunch a_explicit fst].
+  - destruct (a_th a <=? _)%Z; cbn [fst]; unfold a_state, a_pers, rebuilds; cbn [a_snap a_tail a_stored snap_list].
+    + rewrite app_nil_r. reflexivity.
+    + rewrite app_assoc. reflexivity.
+  - destruct (Hrec (a_th a) (a_persist false a)) as [H1 H2]. destruct Hok as [_ H4]. rewrite H1, H2, H4. reflexivity.
+  - destruct (Hrec th' (a_persist false a)) as [H1 H2]. destruct Hok as [_ H4]. rewrite H1, H2, H4. reflexivity.
+  - destruct Hok as [H3 H4]. rewrite H3, H4. reflexivity.
+  - reflexivity.
+  - reflexivity.
+  - destruct (Hrec (a_th a) (a_persist true a)) as [H1 H2]. rewrite H1, H2. reflexivity.
+  - destruct (Hrec th' (a_persist true a)) as [H1 H2]. rewrite H1, H2. reflexivity.
+Qed.
+
+(* the model's actor state is [live_state], the stored record rebuilds [last_persisted]: after every history *)
+Lemma run_track g th ops :
+  let c := fst (run repaired g th ops) in
+  let a := fst (arun th ops) in
+  Inv c a /\ a_state a = live_state ops /\ a_pers a = last_persisted ops.
+Proof.
+  cbv zeta. induction ops as [|o ops IH] using rev_ind.
+  - split; [apply run_refines|]. split; reflexivity.
+  - destruct IH as (HI & Hl & Hp).
+    split; [apply run_refines|].
+    rewrite arun_snoc.
+    pose proof (astep_track (fst (arun th ops)) o (inv_awf _ _ HI)) as Ht.
+    rewrite Hl, Hp in Ht. unfold live_state, last_persisted in *.
+    rewrite track_app. rewrite <- Ht. auto.
+Qed.
+
+Lemma track_fault_free : forall ops l p,
+  fault_free ops = true -> fst (track l p ops) = l ++ recorded ops.
+Proof.
+  induction ops as [|o ops IH]; intros l p H.
   - cbn. rewrite app_nil_r. reflexivity.
-  - pose proof (astep_state a o) as Hs.
-    destruct (astep a o) as [a1 y]. cbn [fst] in Hs.
-    specialize (IH a1). destruct (arun_from a1 ops) as [a2 ys]. cbn [fst] in *.
-    rewrite IH, Hs, <- app_assoc. reflexivity.
+  - cbn [fault_free forallb] in H. apply andb_prop in H. destruct H as [Ho H].
+    destruct o; try discriminate; cbn [track recorded flat_map]; rewrite IH by exact H;
+      rewrite <- ?app_assoc; reflexivity.
 Qed.
 
-Lemma arun_state th ops : a_state (fst (arun th ops)) = recorded ops.
-Proof. unfold arun. rewrite arun_from_state. reflexivity. Qed.
+Lemma live_state_fault_free ops : fault_free ops = true -> live_state ops = recorded ops.
+Proof. intros H. unfold live_state. rewrite track_fault_free by exact H. reflexivity. Qed.
+
+(* a relaunch without a failing save rebuilds the state the old instance had *)
+Lemma last_persisted_ok_relaunch ops o :
+  is_relaunch o = true -> faulty o = false -> last_persisted (ops ++ [o]) = live_state ops.
+Proof.
+  intros Hr Hf. unfold last_persisted, live_state. rewrite track_app.
+  destruct o; try discriminate; reflexivity.
+Qed.
+
+Lemma fault_free_snoc ops o : fault_free (ops ++ [o]) = true -> fault_free ops = true /\ faulty o = false.
+Proof.
+  unfold fault_free. rewrite forallb_app. cbn [forallb]. intros H.
+  apply andb_prop in H. destruct H as [H1 H2]. rewrite andb_true_r in H2.
+  split; [exact H1|]. destruct (faulty o); [discriminate|reflexivity].
+Qed.
+
+(* the output of a relaunch in the abstract journal *)
+Lemma astep_relaunch a o :
+  is_relaunch o = true ->
+  let a' := fst (astep a o) in
+  unmarked (snd (astep a o)) = OLaunch (a_saved a) (a_trace a') (a_counts a') (a_state a')
+  /\ launch_state (snd (astep a o)) = Some (a_state a')
+  /\ (faulty o = false -> snd (astep a o) = OLaunch (a_saved a) (a_trace a') (a_counts a') (a_state a')).
+Proof.
+  intros Hr. cbv zeta.
+  destruct o; try discriminate; cbn [astep a_relaunch fst snd faulty];
+    (split; [|split]); try reflexivity; try discriminate;
+    unfold mark; destruct (a_saved a); reflexivity.
+Qed.
+
+(* after a relaunch the journal is the stored record *)
+Lemma astep_relaunch_stored a o :
+  awf a -> is_relaunch o = true ->
+  let a' := fst (astep a o) in
+  (a_stored a' = None /\ a_snap a' = None /\ a_tail a' = []) \/ a_stored a' = Some (a_snap a', a_tail a').
+Proof.
+  intros Hw Hr. cbv zeta.
+  assert (H : forall th a0, let a' := a_recover th a0 in
+            (a_stored a' = None /\ a_snap a' = None /\ a_tail a' = []) \/ a_stored a' = Some (a_snap a', a_tail a')).
+  { intros th a0. cbv zeta. unfold a_recover. destruct (a_stored a0) as [[s t]|] eqn:E; cbn; auto. }
+  destruct o; try discriminate; cbn [astep a_relaunch fst]; apply H.
+Qed.
+
+(* a relaunch whose save does not fail leaves the journal as it was *)
+Lemma astep_relaunch_ok_same a o :
+  awf a -> is_relaunch o = true -> faulty o = false ->
+  a_snap (fst (astep a o)) = a_snap a /\ a_tail (fst (astep a o)) = a_tail a.
+Proof.
+  intros Hw Hr Hf.
+  assert (H : forall th, a_snap (a_recover th (a_persist false a)) = a_snap a
+                         /\ a_tail (a_recover th (a_persist false a)) = a_tail a).
+  { intros th. unfold a_persist.
+    destruct (a_saved_cases a) as [(H & H1 & H2)|(H & _)]; rewrite H.
+    - unfold a_recover. rewrite (awf_saved_none a Hw H). cbn. auto.
+    - unfold a_recover. cbn. auto. }
+  destruct o; try discriminate; cbn [astep a_relaunch fst]; apply H.
+Qed.
+
+(* no operation without a successful save changes the stored record *)
+Lemma astep_saves_nothing a o : saves_nothing o = true -> a_stored (fst (astep a o)) = a_stored a.
+Proof.
+  assert (H : forall th a0, a_stored (a_recover th a0) = a_stored a0).
+  { intros th a0. unfold a_recover. destruct (a_stored a0) as [[s t]|] eqn:E; cbn; auto. }
+  intros Hs. destruct o; try discriminate; cbn [astep a_relaunch a_explicit fst]; try reflexivity.
+  - destruct (a_th a <=? _)%Z; reflexivity.
+  - apply H.
+  - apply H.
+Qed.
+
+Lemma arun_from_saves_nothing : forall more a,
+  forallb saves_nothing more = true -> a_stored (fst (arun_from a more)) = a_stored a.
+Proof.
+  induction more as [|o more IH]; intros a H; cbn [arun_from].
+  - reflexivity.
+  - cbn [forallb] in H. apply andb_prop in H. destruct H as [Ho H].
+    pose proof (astep_saves_nothing a o Ho) as Hs.
+    destruct (astep a o) as [a1 x]. cbn [fst] in Hs.
+    specialize (IH a1 H). destruct (arun_from a1 more) as [a2 xs]. cbn [fst] in *. congruence.
+Qed.
 
 (* ------------------------------------------------------------------ the statements of C09 *)
 
-(* the state of the actor is always the full recorded history: across every generation *)
-Theorem state_is_history g th ops :
-  actor (fst (run repaired g th ops)) = recorded ops.
+(* refinement, with the stored record *)
+Theorem faulty_storage_refines g th ops :
+  snd (run repaired g th ops) = snd (arun th ops)
+  /\ journal_view (fst (run repaired g th ops)) = (a_snap (fst (arun th ops)), a_tail (fst (arun th ops)))
+  /\ stored_view (fst (run repaired g th ops)) = a_stored (fst (arun th ops))
+  /\ recovering (fst (run repaired g th ops)) = false.
 Proof.
-  destruct (run_refines g th ops) as (HI & _).
-  rewrite (inv_actor _ _ HI). apply arun_state.
+  destruct (run_refines g th ops) as (HI & Ho).
+  split; [exact Ho|split; [|split; [apply inv_stored_view; exact HI|exact (inv_rec _ _ HI)]]].
+  unfold journal_view. rewrite (inv_snap _ _ HI), (inv_tail _ _ HI). reflexivity.
+Qed.
+
+Theorem refines_abstract_journal g th ops :
+  snd (run repaired g th ops) = snd (arun th ops)
+  /\ journal_view (fst (run repaired g th ops)) = (a_snap (fst (arun th ops)), a_tail (fst (arun th ops)))
+  /\ recovering (fst (run repaired g th ops)) = false.
+Proof. destruct (faulty_storage_refines g th ops) as (H1 & H2 & _ & H4). auto. Qed.
+
+(* the state of the actor after any history, failing saves included *)
+Theorem state_is_live_state g th ops :
+  actor (fst (run repaired g th ops)) = live_state ops.
+Proof.
+  destruct (run_track g th ops) as (HI & Hl & _). rewrite (inv_actor _ _ HI). exact Hl.
+Qed.
+
+(* at every moment what the storage holds rebuilds the state of the last successful persist *)
+Theorem stored_record_is_last_successful_persist g th ops :
+  rebuilds (stored_view (fst (run repaired g th ops))) = last_persisted ops.
+Proof.
+  destruct (run_track g th ops) as (HI & _ & Hp). rewrite (inv_stored_view _ _ HI). exact Hp.
+Qed.
+
+(* ... without failing saves it is the full recorded history: across every generation *)
+Theorem state_is_history g th ops :
+  fault_free ops = true ->
+  actor (fst (run repaired g th ops)) = recorded ops.
+Proof. intros H. rewrite state_is_live_state. apply live_state_fault_free. exact H. Qed.
+
+(* every launch rebuilds the state of the last successful persist *)
+Theorem recovers_last_successful_persist g th ops o :
+  is_relaunch o = true ->
+  let c := fst (run repaired g th ops) in
+  launch_state (snd (step repaired g c o)) = Some (last_persisted (ops ++ [o]))
+  /\ actor (fst (step repaired g c o)) = last_persisted (ops ++ [o])
+  /\ rebuilds (stored_view (fst (step repaired g c o))) = last_persisted (ops ++ [o]).
+Proof.
+  intros Hrl. cbv zeta.
+  destruct (run_track g th ops) as (HI & _ & _).
+  destruct (run_track g th (ops ++ [o])) as (HI1 & Hl1 & Hp1).
+  rewrite run_snoc in HI1. rewrite arun_snoc in HI1, Hl1, Hp1.
+  pose proof (step_refines g _ _ o HI) as (_ & Ho).
+  destruct (astep_relaunch (fst (arun th ops)) o Hrl) as (_ & Hls & _). cbv zeta in Hls.
+  assert (Heq : a_state (fst (astep (fst (arun th ops)) o)) = last_persisted (ops ++ [o])).
+  { rewrite <- Hp1.
+    destruct (astep_relaunch_stored _ o (inv_awf _ _ HI) Hrl) as [(H1 & H2 & H3)|H1]; cbv zeta in *;
+      unfold a_state, a_pers, rebuilds; rewrite H1; [rewrite H2, H3|]; reflexivity. }
+  split; [|split].
+  - rewrite Ho, Hls, Heq. reflexivity.
+  - rewrite (inv_actor _ _ HI1). exact Heq.
+  - rewrite (inv_stored_view _ _ HI1). exact Hp1.
+Qed.
+
+(* operations without a successful save leave what Load returns unchanged, however many events overwrite the
+   journal's array in between *)
+Theorem failed_persist_changes_nothing_stored g th ops more :
+  forallb saves_nothing more = true ->
+  stored_view (fst (run repaired g th (ops ++ more))) = stored_view (fst (run repaired g th ops)).
+Proof.
+  intros H.
+  destruct (run_refines g th (ops ++ more)) as (HI1 & _). destruct (run_refines g th ops) as (HI & _).
+  rewrite (inv_stored_view _ _ HI1), (inv_stored_view _ _ HI).
+  unfold arun. rewrite arun_from_app. cbn [fst]. apply arun_from_saves_nothing. exact H.
+Qed.
+
+(* what a persist hands to Storage.Save: the journal, unless it is empty *)
+Definition to_save (jv : option (list Z) * list Z) : saved_rec :=
+  match jv with (None, []) => None | _ => Some jv end.
+
+Theorem no_loss_dup_reorder_with_faults g th ops o :
+  is_relaunch o = true ->
+  let c := fst (run repaired g th ops) in
+  let c' := fst (step repaired g c o) in
+  exists (sn : option (list Z)) (t : list Z),
+    unmarked (snd (step repaired g c o))
+      = OLaunch (to_save (journal_view c)) (snap_items sn ++ map REv t)
+                (repeat (Z.of_nat (length t)) (length t)) (snap_list sn ++ t)
+    /\ snap_list sn ++ t = last_persisted (ops ++ [o])
+    /\ journal_view c' = (sn, t)
+    /\ ((stored_view c' = None /\ sn = None /\ t = []) \/ stored_view c' = Some (sn, t)).
+Proof.
+  intros Hrl. cbv zeta.
+  destruct (run_track g th ops) as (HI & _ & _).
+  pose proof (step_refines g _ _ o HI) as (HI1 & Ho).
+  destruct (recovers_last_successful_persist g th ops o Hrl) as (_ & Hact & _). cbv zeta in Hact.
+  set (a := fst (arun th ops)) in *. set (a' := fst (astep a o)) in *.
+  exists (a_snap a'), (a_tail a').
+  destruct (astep_relaunch a o Hrl) as (Hun & _ & _). cbv zeta in Hun. fold a' in Hun.
+  split; [|split; [|split]].
+  - rewrite Ho, Hun. f_equal.
+    unfold journal_view. rewrite (inv_snap _ _ HI), (inv_tail _ _ HI). fold a.
+    unfold to_save, a_saved. destruct (a_snap a); destruct (a_tail a); reflexivity.
+  - rewrite <- Hact, (inv_actor _ _ HI1). reflexivity.
+  - unfold journal_view. rewrite (inv_snap _ _ HI1), (inv_tail _ _ HI1). reflexivity.
+  - rewrite (inv_stored_view _ _ HI1).
+    destruct (astep_relaunch_stored a o (inv_awf _ _ HI) Hrl) as [H|H]; cbv zeta in H; fold a' in H; auto.
 Qed.
 
 Theorem recovery_exact g th ops o :
+  fault_free (ops ++ [o]) = true ->
   is_relaunch o = true ->
   let c := fst (run repaired g th ops) in
   launch_state (snd (step repaired g c o)) = Some (actor c)
   /\ actor (fst (step repaired g c o)) = actor c
   /\ actor c = recorded ops.
 Proof.
-  intros Hrl. cbv zeta.
-  destruct (run_refines g th ops) as (HI & _).
-  pose proof (step_refines g _ _ o HI) as (HI1 & Ho).
-  rewrite Ho, (inv_actor _ _ HI1), (inv_actor _ _ HI), arun_state.
-  destruct o; try discriminate; cbn [astep fst snd a_launch launch_state];
-    unfold a_state; cbn [a_snap a_tail]; rewrite <- arun_state with (th := th); auto.
+  intros Hff Hrl. cbv zeta.
+  destruct (fault_free_snoc _ _ Hff) as (Hff0 & Hfo).
+  destruct (recovers_last_successful_persist g th ops o Hrl) as (H1 & H2 & _). cbv zeta in H1, H2.
+  rewrite H1, H2, (last_persisted_ok_relaunch ops o Hrl Hfo), state_is_live_state.
+  split; [reflexivity|split; [reflexivity|]]. apply live_state_fault_free. exact Hff0.
 Qed.
 
 Theorem no_loss_dup_reorder g th ops o :
+  fault_free (ops ++ [o]) = true ->
   is_relaunch o = true ->
   let c := fst (run repaired g th ops) in
   let a := fst (arun th ops) in
@@ -465,17 +888,21 @@ Theorem no_loss_dup_reorder g th ops o :
     /\ journal_view c = (a_snap a, a_tail a)
     /\ saved = a_saved a.
 Proof.
-  intros Hrl. cbv zeta.
-  destruct (run_refines g th ops) as (HI & _).
+  intros Hff Hrl. cbv zeta.
+  destruct (fault_free_snoc _ _ Hff) as (Hff0 & Hfo).
+  destruct (run_track g th ops) as (HI & Hl & _).
   pose proof (step_refines g _ _ o HI) as (HI1 & Ho).
-  pose proof (arun_state th ops) as Hst. unfold a_state in Hst.
-  assert (Hjv : journal_view (fst (run repaired g th ops)) = (a_snap (fst (arun th ops)), a_tail (fst (arun th ops)))).
-  { unfold journal_view. rewrite (inv_snap _ _ HI), (inv_tail _ _ HI). reflexivity. }
-  destruct o; try discriminate; rewrite Ho; cbn [astep snd a_launch];
-    do 4 eexists; (split; [reflexivity|]); repeat split; auto.
+  destruct (astep_relaunch (fst (arun th ops)) o Hrl) as (_ & _ & Hout). cbv zeta in Hout.
+  destruct (astep_relaunch_ok_same _ o (inv_awf _ _ HI) Hrl Hfo) as (Hs & Ht).
+  do 4 eexists. split; [rewrite Ho; apply Hout; exact Hfo|].
+  split; [unfold a_trace; rewrite Hs, Ht; reflexivity|].
+  split; [|split; [|reflexivity]].
+  - unfold a_state in Hl. rewrite Hl. apply live_state_fault_free. exact Hff0.
+  - unfold journal_view. rewrite (inv_snap _ _ HI), (inv_tail _ _ HI). reflexivity.
 Qed.
 
 Theorem replay_does_not_record g th ops o :
+  fault_free (ops ++ [o]) = true ->
   is_relaunch o = true ->
   let c := fst (run repaired g th ops) in
   let a := fst (arun th ops) in
@@ -483,14 +910,16 @@ Theorem replay_does_not_record g th ops o :
      snd (step repaired g c o) = OLaunch saved trace (repeat (Z.of_nat (length (a_tail a))) (length (a_tail a))) st)
   /\ journal_view (fst (step repaired g c o)) = journal_view c.
 Proof.
-  intros Hrl. cbv zeta.
+  intros Hff Hrl. cbv zeta.
+  destruct (fault_free_snoc _ _ Hff) as (Hff0 & Hfo).
   destruct (run_refines g th ops) as (HI & _).
   pose proof (step_refines g _ _ o HI) as (HI1 & Ho).
+  destruct (astep_relaunch (fst (arun th ops)) o Hrl) as (_ & _ & Hout). cbv zeta in Hout.
+  destruct (astep_relaunch_ok_same _ o (inv_awf _ _ HI) Hrl Hfo) as (Hs & Ht).
   split.
-  - destruct o; try discriminate; rewrite Ho; cbn [astep snd a_launch]; do 3 eexists; reflexivity.
+  - do 3 eexists. rewrite Ho, (Hout Hfo). unfold a_counts. rewrite Ht. reflexivity.
   - unfold journal_view.
-    rewrite (inv_snap _ _ HI), (inv_tail _ _ HI), (inv_snap _ _ HI1), (inv_tail _ _ HI1).
-    destruct o; try discriminate; reflexivity.
+    rewrite (inv_snap _ _ HI), (inv_tail _ _ HI), (inv_snap _ _ HI1), (inv_tail _ _ HI1), Hs, Ht. reflexivity.
 Qed.
 
 (* StateChanged never changes the current message / sender: for EVERY context, reachable or not *)
@@ -520,20 +949,47 @@ Proof.
   congruence.
 Qed.
 
-Theorem refines_abstract_journal g th ops :
-  snd (run repaired g th ops) = snd (arun th ops)
-  /\ journal_view (fst (run repaired g th ops)) = (a_snap (fst (arun th ops)), a_tail (fst (arun th ops)))
-  /\ recovering (fst (run repaired g th ops)) = false.
-Proof.
-  destruct (run_refines g th ops) as (HI & Ho).
-  split; [exact Ho|split; [|exact (inv_rec _ _ HI)]].
-  unfold journal_view. rewrite (inv_snap _ _ HI), (inv_tail _ _ HI). reflexivity.
-Qed.
-
 (* the actor that records before it applies loses the event that crosses the threshold *)
 Theorem record_first_recovery_refuted :
   exists (g : nat -> nat -> nat) (th : Z) (ops : list op),
     actor (fst (run repaired_record_first g th ops)) <> recorded ops.
 Proof.
   exists go_grow, 2%Z, [Event 1; Event 2; Event 3; Fail]%Z. vm_compute. discriminate.
+Qed.
+
+(* ------------------------------------------------------------------ the behaviours that were repaired, refuted *)
+
+(* a launch of variant v that does not rebuild the state of the last successful persist *)
+Definition launch_differs (v : variant) (g : nat -> nat -> nat) (th : Z) (ops : list op) (o : op) : Prop :=
+  is_relaunch o = true
+  /\ launch_state (snd (step v g (fst (run v g th ops)) o)) <> Some (last_persisted (ops ++ [o])).
+
+(* MemoryStorage.Save as shipped (the record keeps the journal's slice): threshold 2; 1 2 (snapshot [1 2]) 3, persist:
+   stored ([1 2], [3]); 4 (snapshot, the journal is truncated in place), 5 lands on the stored 3; the restart's save
+   fails: the launch rebuilds [1 2 5], the last successful persist was [1 2 3] *)
+Theorem memory_storage_alias_as_shipped_refuted :
+  exists g th ops o, launch_differs save_aliases g th ops o.
+Proof.
+  exists go_grow, 2%Z, [Event 1; Event 2; Event 3; Persist; Event 4; Event 5]%Z, FailF.
+  split; [reflexivity|]. vm_compute. discriminate.
+Qed.
+
+(* State.Load as shipped when nothing is stored: 1 2, restart with a failing save (nothing stored: the new instance is
+   empty, the journal keeps 1 2), 3, restart: the launch rebuilds [1 2 3], the last successful persist was [3] *)
+Theorem no_record_keeps_journal_as_shipped_refuted :
+  exists g th ops o, launch_differs norec_keeps_journal g th ops o.
+Proof.
+  exists go_grow, 1000%Z, [Event 1; Event 2; FailF; Event 3]%Z, Fail.
+  split; [reflexivity|]. vm_compute. discriminate.
+Qed.
+
+(* the seeded change "State.Load adopts the storage's slice", with a storage whose copies have spare capacity (growth
+   policy: three more than needed): threshold 2; 1, restart (stored (-, [1]); the journal IS that slice), 2 is appended
+   in place (snapshot [1 2], truncation), 3 lands on the stored 1; the restart's save fails: the launch rebuilds [3],
+   the last successful persist was [1] *)
+Theorem load_adopts_storage_slice_refuted :
+  exists g th ops o, launch_differs load_adopts g th ops o.
+Proof.
+  exists (fun _ n => n + 3), 2%Z, [Event 1; Fail; Event 2; Event 3]%Z, FailF.
+  split; [reflexivity|]. vm_compute. discriminate.
 Qed.
